@@ -79,13 +79,32 @@ pub struct Heard {
 	pub gains: Vec<f32>,
 }
 
+/// 0 silent, 1 between, 2 exactly unity, 3 above unity (only visible before the renderer's clamp, see `Tap`)
 fn gain_class(g: f32) -> u8 {
 	if g == 0.0 {
 		0
 	} else if g == 1.0 {
 		2
+	} else if g > 1.0 || g < 0.0 || !g.is_finite() {
+		3
 	} else {
 		1
+	}
+}
+
+/// An effect that records the frames passing through it (interleaved), e.g. on the main track: what the mixer
+/// produced before the renderer clamps it.
+pub struct Tap(pub Arc<std::sync::Mutex<Vec<f32>>>);
+impl kira::effect::Effect for Tap {
+	fn process(&mut self, input: &mut [Frame], _dt: f64, _info: &kira::info::Info) {
+		let buf = &self.0;
+		unarmed(|| {
+			let mut b = buf.lock().unwrap();
+			for f in input.iter() {
+				b.push(f.left);
+				b.push(f.right);
+			}
+		});
 	}
 }
 
